@@ -3,7 +3,7 @@
 From Pyctr Require Import Base.Prelude Base.ListExt Base.PySlice Env.PyFile Env.FileIface Model.Window Proofs.WindowProofs.
 
 Lemma take_all {A} (d : list A) : take d (len d) = d.
-Proof. unfold take, len. rewrite Nat2Z.id. apply firstn_all. Qed.
+Proof. unfold len; rewrite ?take_raw; unfold take0. rewrite Nat2Z.id. apply firstn_all. Qed.
 
 Lemma pyfile_write_law s d :
   pf_ok s ->
@@ -55,7 +55,7 @@ Proof.
   destruct (sk >? sz) eqn:Hpast.
   - do 2 eexists. split; [reflexivity|]. unfold win_inside. cbn [wseek wbase fdata].
     replace (Z.min (len d) (Z.max 0 (sz - sk))) with 0 by lia.
-    repeat split; auto; lia.
+    rewrite take_0. cbn [overlay]. repeat split; auto; lia.
   - rewrite pf_seek_abs by lia. cbn [bind]. unfold pf_write. cbn [fdata fpos].
     set (d' := win_write_data sz sk d).
     assert (Hd' : d' = take d (Z.min (len d) (sz - sk))).
@@ -63,8 +63,8 @@ Proof.
       destruct (len d + sk >? sz) eqn:?.
       - unfold pyslice, clampidx.
         destruct (- (len d + sk - sz) <? 0) eqn:?; [|lia].
-        unfold slice, take. simpl skipn. f_equal. lia.
-      - unfold take. rewrite Z.min_l by lia. unfold len. rewrite Nat2Z.id. symmetry. apply firstn_all. }
+        rewrite ?slice_raw, ?take_raw; unfold slice0, take0. simpl skipn. f_equal. lia.
+      - rewrite ?take_raw; unfold take0. rewrite Z.min_l by lia. unfold len. rewrite Nat2Z.id. symmetry. apply firstn_all. }
     assert (Hlen' : len d' = Z.min (len d) (sz - sk)) by (rewrite Hd'; rewrite len_take by lia; lia).
     do 2 eexists. split; [reflexivity|]. unfold win_inside. cbn [wseek wbase fdata].
     rewrite Hlen'. replace (Z.max 0 (sz - sk)) with (sz - sk) by lia. rewrite <- Hd'.
